@@ -412,7 +412,16 @@ func (ex *Exec) store(st *State, l Loc, v T) error {
 // recordWrite feeds frame / lock-discipline obligations.
 func (ex *Exec) recordWrite(st *State, heap string, ref T) {
 	ex.heapWrites[heap] = true
-	if ex.P.immutHeaps[heap] && ex.con != nil {
+	waived := false
+	if ex.con != nil {
+		for _, w := range ex.con.WritesImmut {
+			if strings.HasSuffix(heap, "."+w) || strings.HasSuffix(heap, w) {
+				waived = true
+				ex.vc.assumed["ownership waiver: "+ex.con.Name+" reassigns "+w+" only on objects no other component under contract can reach"] = true
+			}
+		}
+	}
+	if ex.P.immutHeaps[heap] && ex.con != nil && !waived {
 		ex.nimm++
 		ex.vc.oblige("immut", fmt.Sprintf("immut:%s:%s:%d", ex.conName(), heap, ex.nimm), st.guard, Gt(ref, ex.ghostGet(ex.entry, "alloc")), ex.pos(token.NoPos)).SetNote("field declared immutable is written only on objects allocated by this call")
 	}
